@@ -692,6 +692,11 @@ def run(ctx):
     #      magic + table byte, and a new database is stamped with the version check_version accepts
     version_tables(ctx, "R-C17.14")
 
+    # ---- R-C17.15 a documented argument panic of a Database method fires BEFORE the keyspaces write lock is taken: a panic
+    #      under that lock poisons it, DatabaseInner::drop then panics half-way (it `expect`s the lock) and the folder
+    #      lock is never released in this process
+    argument_panics_before_the_lock(ctx, "R-C17.15")
+
     # ---- cross-cutting disciplines (rules/discipline.py)
     from .. import discipline as D
     # open/lock/marker errors surface
@@ -894,3 +899,30 @@ def version_tables(ctx, rule):
                "create_new writes FormatVersion::%s, the version check_version accepts" % ACCEPTED_VERSION if ok else
                "create_new stamps %s (%d header writes) but check_version accepts only %s: the database cannot be reopened / a foreign one is taken for ours" % (sorted(names), len(w), ACCEPTED_VERSION),
                cn.loc(w[0][0]) if w else "")
+
+
+PANICS = ("core::panicking::", "std::rt::begin_panic", "std::rt::panic_fmt")
+
+
+def argument_panics_before_the_lock(ctx, rule):
+    from .. import locks
+    F = ctx.F
+    lm = locks.LockModel(ctx)
+    n = 0
+    for fid, fn in sorted(F.fns.items()):
+        if fn.kind == "closure" or not fid.startswith("db::Database::"):
+            continue
+        gs = [g for g in lm.guards(fn) if g.cls == "keyspaces" and g.mode == "write" and not g.from_param]
+        if not gs:
+            continue
+        pan = [b for b, t in fn.calls() if A.cname(t).startswith(PANICS) and not fn.blocks[b]["cleanup"]]
+        bad = []
+        for g in gs:
+            held, _ = A.held_blocks(fn, g)
+            bad += [b for b in pan if b in held]
+        n += 1
+        ctx.ob(rule, fn, "no-assert-fires-under-the-keyspaces-write-lock", not bad,
+               "%d explicit panic site(s), all before the lock is taken" % len(pan) if not bad else
+               "an assert / panic can fire while the keyspaces write lock is held: the lock is poisoned, DatabaseInner::drop panics on it before it breaks the handle cycles, and the folder stays locked for the rest of the process",
+               fn.loc(bad[0]) if bad else "")
+    ctx.floor(rule, "Database methods that take the keyspaces write lock", n, 1)
